@@ -265,6 +265,60 @@ proof fn k9_link12() ensures k9_link12_p()
     assert forall|f: Fp12| #![trigger f.val()] f.val().len() == 12 && f12_bytes(f.val()) == gt_bytes(Gt { c: f.val() }) by { k9_val12(f); f12_lemma_bytes_gt(f.val()); }
     assert forall|a: Seq<int>, k: int| #![trigger f12_pow(a, k)] gt_pow(Gt { c: a }, k) == (Gt { c: f12_pow(a, k) }) by { k9_pow12(a, k); }
 }
+// ---------------- fail-fast step checks: each states ONE expected spec-level value right after the call that produces it,
+// so that a wrong argument / constant / order is reported as "precondition not satisfied" at that step
+// every 32-byte big-endian string has length 32: with this all byte-string lengths of a context are decided by propagation
+// (free length terms make Z3's model search for a FALSE byte-level fact diverge)
+proof fn k9_be32() ensures forall|v: int| (#[trigger] be_bytes(v, 32)).len() == 32
+{ assert forall|v: int| (#[trigger] be_bytes(v, 32)).len() == 32 by { lemma_be_bytes_len(v, 32); } }
+proof fn k9_is_int(a: int, b: int) requires a == b { }
+proof fn k9_is_gt(a: Gt, b: Gt) requires a == b { }
+proof fn k9_is_pt1(a: Pt1, b: Pt1) requires a == b { }
+proof fn k9_is_pt2(a: Pt2, b: Pt2) requires a == b { }
+proof fn k9_is_bytes(a: Seq<u8>, b: Seq<u8>) requires a == b { }
+// t = g^k in the GT view
+proof fn k9_gt_pow(g: Fp12, t: Fp12, k: int)
+    requires t.val() == f12_pow(g.val(), k)
+    ensures abs12(t) == gt_pow(abs12(g), k)
+{ k9_pow12(g.val(), k); }
+// w = u * t in the GT view
+proof fn k9_gt_mul(u: Fp12, t: Fp12, w: Fp12)
+    requires w.val() == f12_mul(u.val(), t.val())
+    ensures abs12(w) == gt_mul(abs12(u), abs12(t))
+{ }
+// the serialisation of an Fp12 value is the GT byte string (384 bytes)
+proof fn k9_gt_ser(w: Fp12, wb: Seq<u8>)
+    requires wb == f12_bytes(w.val())
+    ensures wb == gt_bytes(abs12(w)), wb.len() == 384
+{ k9_val12(w); f12_lemma_bytes_gt(w.val()); k9_gt_bytes_len(abs12(w)); }
+proof fn k9_ver_final(ppubs: Pt2, id: Seq<u8>, m: Seq<u8>, h: int, s: Pt1, h1: int, pq: Pt2, g: Gt, t: Gt, u: Gt, w: Gt, wb: Seq<u8>, h2: int)
+    requires h < N9(), on_curve1(s), h1 == s_h1(id, 1u8), pq == g2_add(ppubs, g2_smul(h1, G2P())), g == e9(ppubs, G1P()), t == gt_pow(g, h),
+        u == e9(pq, s), w == gt_mul(u, t), wb == gt_bytes(w), h2 == s_h2(m, wb), 1 <= h2, h2 == h
+    ensures ver9_ok(ppubs, id, m, h, s)
+{ }
+proof fn k9_sign_final(r0: Seq<u64>, ppubs: Pt2, ds: Pt1, m: Seq<u8>, g: Gt, h: int, l: int, s: Pt1)
+    requires csprng9(r0), 1 <= val4(r0) < N9() - 1, g == e9(ppubs, G1P()), h == s_h2(m, gt_bytes(gt_pow(g, val4(r0)))),
+        l == (val4(r0) - h) % N9(), l != 0, s == g1_smul(l, ds)
+    ensures exists|r: Seq<u64>| #[trigger] csprng9(r) && sig9_from_nonce(val4(r), ppubs, ds, m, h, s)
+{ assert(csprng9(r0) && sig9_from_nonce(val4(r0), ppubs, ds, m, h, s)); }
+proof fn k9_exch_b_final(rb: Seq<u64>, ppube: Pt1, de_b: Pt2, ida: Seq<u8>, idb: Seq<u8>, ra: Pt1, klen: nat, rb_pt: Pt1, sk: Seq<u8>)
+    requires csprng9(rb), 1 <= val4(rb) < N9() - 1, rb_pt == g1_smul(val4(rb), g1_add(g1_smul(s_h1(ida, 2u8), G1P()), ppube)),
+        sk == exch9_key(ida, idb, ra, rb_pt, e9(de_b, ra), gt_pow(e9(G2P(), ppube), val4(rb)), gt_pow(e9(de_b, ra), val4(rb)), klen)
+    ensures exists|r: Seq<u64>| #[trigger] csprng9(r) && exch9_b(val4(r), ppube, de_b, ida, idb, ra, klen, rb_pt, sk)
+{ assert(csprng9(rb) && exch9_b(val4(rb), ppube, de_b, ida, idb, ra, klen, rb_pt, sk)); }
+// the KDF input of the key exchange: seven pieces appended in order to an empty vector, the two points without their 04 tag
+proof fn k9_exch_cat(v: Seq<u8>, e: Seq<u8>, ida: Seq<u8>, idb: Seq<u8>, ta: Seq<u8>, tb: Seq<u8>, b1: Seq<u8>, b2: Seq<u8>, b3: Seq<u8>,
+    xa: Seq<u8>, xb: Seq<u8>, w1: Seq<u8>, w2: Seq<u8>, w3: Seq<u8>)
+    requires e.len() == 0,
+        v == e + ida + idb + ta.subrange(1, ta.len() as int) + tb.subrange(1, tb.len() as int) + b1 + b2 + b3,
+        ta == seq![4u8] + xa, tb == seq![4u8] + xb, b1 == w1, b2 == w2, b3 == w3,
+        w1.len() == 384, w2.len() == 384, w3.len() == 384, xa.len() == 64, xb.len() == 64,
+    ensures v == ida + idb + xa + xb + w1 + w2 + w3, v.len() == ida.len() + idb.len() + 1280
+{
+    assert(e + ida =~= ida);
+    assert(ta.subrange(1, ta.len() as int) =~= xa);
+    assert(tb.subrange(1, tb.len() as int) =~= xb);
+}
 proof fn k9_h_range(prefix: u8, z: Seq<u8>) ensures 1 <= s_h(prefix, z) < N9()
 {
     lemma_params9();
@@ -346,10 +400,12 @@ struct Sm9EncKey {
 }
 impl Sm9EncKey {
 //@props C10 C20
+    #[verifier::spinoff_prover]
     fn decrypt(&self, idb: &[u8], data: &[u8]) -> (res: Sm9Result<Vec<u8>>)
         requires valid2(self.de), idb@.len() < 0x1000_0000_0000_0000
         ensures res is Ok ==> dec9_ok(abs2(self.de), idb@, data@, res->Ok_0@),
     {
+        hide(f12_bytes); hide(val4);
         
         if data.len() <= 65 + 32 || data.len() > 65 + 32 + 255 {
             return Err(Sm9Error::InvalidFieldLen);
@@ -445,12 +501,14 @@ impl Sm9EncMasterKey {
     }
 
 //@props C10 C14 C20
+    #[verifier::spinoff_prover]
     #[verifier::exec_allows_no_decreases_clause]
     fn encrypt(&self, idb: &[u8], data: &[u8]) -> (c: Vec<u8>)
         requires valid1(self.ppube), 1 <= data@.len() <= 255, idb@.len() < 0x1000_0000_0000_0000
         ensures exists|r: Seq<u64>| #[trigger] csprng9(r) && enc9_from_nonce(val4(r), abs1(self.ppube), idb@, data@, c@),
     {
         
+        hide(f12_bytes); hide(val4);
         proof { lemma_key9_consts(); lemma_params9(); lemma_p2_generator(); }
         let t = sm9_u256_hash1(idb, SM9_HID_ENC);
         let mut c1 = SM9_POINT_MONT_P1.point_mul(&t);
@@ -738,6 +796,7 @@ struct Sm9SignKey {
 impl Sm9SignKey {
     
 //@props C09 C14 C20
+    #[verifier::spinoff_prover]
     #[verifier::exec_allows_no_decreases_clause]
     fn sign(&self, data: &[u8]) -> (res: Sm9Result<(U256, Point)>)
         requires valid2(self.ppubs), valid1(self.ds), data@.len() < 0x1000_0000_0000_0000
@@ -745,8 +804,10 @@ impl Sm9SignKey {
             valid1(res->Ok_0.1),
     {
         
+        hide(f12_bytes); hide(val4);
         proof { lemma_key9_consts(); lemma_params9(); }
         let g = sm9_u256_pairing(&self.ppubs, &SM9_POINT_MONT_P1);
+        proof { k9_is_gt(abs12(g), e9(abs2(self.ppubs), G1P())); }
         let mut h: U256 = [0, 0, 0, 0];
         let mut r: U256 = [0, 0, 0, 0];
         let ghost mut r0: Seq<u64> = r@;
@@ -762,15 +823,18 @@ impl Sm9SignKey {
             
             proof { r0 = r@; }
             let w = g.pow(&r);
+            proof { k9_gt_pow(g, w, val4(r0)); }
             let wbuf = w.to_bytes_be();
             let wbuf = wbuf.as_slice();
 
             
-            proof { k9_link12(); k9_gt_wrap(abs12(w)); k9_gt_bytes_len(abs12(w)); assert(wbuf@ == gt_bytes(abs12(w))); }
+            proof { k9_gt_ser(w, wbuf@); k9_is_bytes(wbuf@, gt_bytes(gt_pow(abs12(g), val4(r0)))); }
             h = sm9_u256_hash2(data, wbuf);
+            proof { k9_is_int(val4(h@), s_h2(data@, gt_bytes(gt_pow(abs12(g), val4(r0))))); }
 
             
             r = mod_n_sub(&r, &h);
+            proof { k9_is_int(val4(r@), (val4(r0) - val4(h@)) % N9()); }
 
             proof { lemma_mod_bound(val4(r0) - val4(h@), N9()); k9_fe_zero(r@); }
             if !r.is_zero() {
@@ -781,6 +845,7 @@ impl Sm9SignKey {
         
         let s = self.ds.point_mul(&r);
 
+        proof { k9_sign_final(r0, abs2(self.ppubs), abs1(self.ds), data@, abs12(g), val4(h@), val4(r@), abs1(s)); }
         Ok((h, s))
     }
 }
@@ -832,12 +897,14 @@ impl Sm9SignMasterKey {
     }
 
 //@props C09 C20
+    #[verifier::spinoff_prover]
     fn verify_sign(&self, id: &[u8], data: &[u8], h: &U256, s: &Point) -> (res: Sm9Result<()>)
         requires valid2(self.ppubs), wf1(*s), val4(s.z@) != 0, id@.len() < 0x1000_0000_0000_0000, data@.len() < 0x1000_0000_0000_0000
         ensures res is Ok ==> ver9_ok(abs2(self.ppubs), id@, data@, val4(h@), abs1(*s)),
     {
         
-        proof { lemma_key9_consts(); lemma_params9(); if canon9(h@) { k9_fe_zero(h@); } }
+        hide(f12_bytes); hide(val4);
+        proof { lemma_key9_consts(); }
         if h.is_zero() || u256_cmp(h, &SM9_N) >= 0 {
             return Err(Sm9Error::InvalidDigest);
         }
@@ -845,27 +912,31 @@ impl Sm9SignMasterKey {
             return Err(Sm9Error::InvalidPoint);
         }
         let g = sm9_u256_pairing(&self.ppubs, &SM9_POINT_MONT_P1);
+        proof { k9_is_gt(abs12(g), e9(abs2(self.ppubs), G1P())); }
         let t = g.pow(h);
+        proof { k9_gt_pow(g, t, val4(h@)); }
         
         let h1 = sm9_u256_hash1(id, SM9_HID_SIGN);
+        proof { k9_is_int(val4(h1@), s_h1(id@, 1u8)); }
         let mut p = TwistPoint::g_mul(&h1);
         p = twist_point_add_full(&self.ppubs, &p);
+        proof { k9_is_pt2(abs2(p), g2_add(abs2(self.ppubs), g2_smul(s_h1(id@, 1u8), G2P()))); }
 
         let u = sm9_u256_pairing(&p, s);
+        proof { k9_is_gt(abs12(u), e9(abs2(p), abs1(*s))); }
         let w = u.fp_mul(&t);
+        proof { k9_gt_mul(u, t, w); }
         let wbuf = w.to_bytes_be();
         let wbuf = wbuf.as_slice();
-        proof {
-            k9_link12(); k9_gt_wrap(abs12(u)); k9_gt_wrap(abs12(t)); k9_gt_wrap(abs12(w));
-            k9_gt_bytes_len(abs12(w));
-            assert(abs12(w) == gt_mul(abs12(u), abs12(t)));
-            assert(wbuf@ == gt_bytes(abs12(w)));
-            assert(wbuf@.len() == 384);
-        }
+        proof { k9_gt_ser(w, wbuf@); }
         let h2 = sm9_u256_hash2(data, wbuf);
         if u256_cmp(&h2, h) != 0 {
             Err(Sm9Error::InvalidDigest)
         } else {
+            proof {
+                k9_ver_final(abs2(self.ppubs), id@, data@, val4(h@), abs1(*s), val4(h1@), abs2(p), abs12(g), abs12(t), abs12(u), abs12(w),
+                    wbuf@, val4(h2@));
+            }
             Ok(())
         }
     }
@@ -892,6 +963,7 @@ fn exch_step_1a(msk: &Sm9EncMasterKey, idb: &[u8]) -> (res: (Point, U256))
     (r, ra)
 }
 //@props C14 C17 C20
+#[verifier::spinoff_prover]
 #[verifier::exec_allows_no_decreases_clause]
 fn exch_step_1b(
     msk: &Sm9EncMasterKey,
@@ -907,13 +979,16 @@ fn exch_step_1b(
         res is Ok ==> (exists|rb: Seq<u64>| #[trigger] csprng9(rb) && exch9_b(val4(rb), abs1(msk.ppube), abs2(key.de), ida@, idb@, abs1(*ra), klen as nat, abs1(res->Ok_0.0), res->Ok_0.1@)),
 {
     
-    proof { lemma_key9_consts(); lemma_params9(); lemma_p2_generator(); }
+    hide(f12_bytes); hide(val4);
+    proof { lemma_key9_consts(); lemma_p2_generator(); }
     let mut rb = sm9_u256_hash1(ida, SM9_HID_EXCH);
+    proof { k9_is_int(val4(rb@), s_h1(ida@, 2u8)); }
     let mut r = SM9_POINT_MONT_P1.point_mul(&rb);
     r = r.point_add(&msk.ppube);
     let mut sk = vec![];
     let q = r;
     let ghost qb = g1_add(g1_smul(s_h1(ida@, 2u8), G1P()), abs1(msk.ppube));
+    proof { k9_is_pt1(abs1(q), qb); }
     loop
         invariant_except_break valid1(q), abs1(q) == qb, valid1(msk.ppube), valid2(key.de), wf1(*ra), val4(ra.z@) != 0, 1 <= klen < 0x1_0000_0000,
             ida@.len() + idb@.len() < 0x1000_0000_0000_0000, valid2(SM9_TWIST_POINT_MONT_P2), abs2(SM9_TWIST_POINT_MONT_P2) == G2P(),
@@ -928,6 +1003,7 @@ fn exch_step_1b(
 
         
         r = q.point_mul(&rb);
+        proof { k9_is_pt1(abs1(r), g1_smul(val4(rb@), qb)); }
 
         
         if !ra.is_on_curve() {
@@ -935,36 +1011,55 @@ fn exch_step_1b(
         }
 
         let g1 = sm9_u256_pairing(&key.de, &ra);
+        proof { k9_is_gt(abs12(g1), e9(abs2(key.de), abs1(*ra))); }
         let mut g2 = sm9_u256_pairing(&SM9_TWIST_POINT_MONT_P2, &msk.ppube);
+        let ghost f2 = g2;
+        proof { k9_is_gt(abs12(f2), e9(G2P(), abs1(msk.ppube))); }
         g2 = g2.pow(&rb);
+        proof { k9_gt_pow(f2, g2, val4(rb@)); k9_is_gt(abs12(g2), gt_pow(e9(G2P(), abs1(msk.ppube)), val4(rb@))); }
         let g3 = g1.pow(&rb);
+        proof { k9_gt_pow(g1, g3, val4(rb@)); k9_is_gt(abs12(g3), gt_pow(e9(abs2(key.de), abs1(*ra)), val4(rb@))); }
         let ghost a1 = abs12(g1); let ghost a2 = abs12(g2); let ghost a3 = abs12(g3);
+        let ghost w1 = g1; let ghost w2 = g2; let ghost w3 = g3;
         let ta = ra.to_bytes_be();
         let tb = r.to_bytes_be();
 
         let g1 = g1.to_bytes_be();
         let g2 = g2.to_bytes_be();
         let g3 = g3.to_bytes_be();
-
+        proof { k9_be32(); }
         let mut pre_append = vec![];
+        let ghost e0: Seq<u8> = pre_append@;
         pre_append.extend_from_slice(ida);
         pre_append.extend_from_slice(idb);
+        let ghost e2: Seq<u8> = pre_append@;
+        proof { assert(e2 =~= e0 + ida@ + idb@); }
         pre_append.extend_from_slice(&ta[1..]);
+        let ghost e3: Seq<u8> = pre_append@;
+        proof { k9_is_int(e3.len() as int, e2.len() as int + 64); assert(e3 =~= e2 + ta@.subrange(1, ta@.len() as int)); }
         pre_append.extend_from_slice(&tb[1..]);
+        let ghost e4: Seq<u8> = pre_append@;
+        proof { k9_is_int(e4.len() as int, e3.len() as int + 64); assert(e4 =~= e3 + tb@.subrange(1, tb@.len() as int)); }
         pre_append.extend_from_slice(&g1);
+        let ghost e5: Seq<u8> = pre_append@;
+        proof { assert(e5 =~= e4 + g1@); }
         pre_append.extend_from_slice(&g2);
+        let ghost e6: Seq<u8> = pre_append@;
+        proof { assert(e6 =~= e5 + g2@); }
         pre_append.extend_from_slice(&g3);
+        proof { assert(pre_append@ =~= e6 + g3@); }
 
         proof {
-            k9_link12(); k9_gt_wrap(a1); k9_gt_wrap(a2); k9_gt_wrap(a3); k9_gt_bytes_len(a1); k9_gt_bytes_len(a2); k9_gt_bytes_len(a3);
+            k9_gt_ser(w1, g1@); k9_gt_ser(w2, g2@); k9_gt_ser(w3, g3@);
             k9_xy_len(abs1(*ra)); k9_xy_len(abs1(r));
-            assert(g1@ == gt_bytes(a1) && g2@ == gt_bytes(a2) && g3@ == gt_bytes(a3));
-            assert(ta@.subrange(1, ta@.len() as int) =~= xy1_bytes(abs1(*ra)));
-            assert(tb@.subrange(1, tb@.len() as int) =~= xy1_bytes(abs1(r)));
-            assert(pre_append@ =~= ida@ + idb@ + xy1_bytes(abs1(*ra)) + xy1_bytes(abs1(r)) + gt_bytes(a1) + gt_bytes(a2) + gt_bytes(a3));
-            k9_kdf_len(pre_append@, klen as nat);
+            k9_exch_cat(pre_append@, e0, ida@, idb@, ta@, tb@, g1@, g2@, g3@, xy1_bytes(abs1(*ra)), xy1_bytes(abs1(r)), gt_bytes(a1), gt_bytes(a2), gt_bytes(a3));
         }
+        proof { k9_kdf_len(pre_append@, klen as nat); }
         sk = kdf(&pre_append, klen);
+        proof {
+            k9_is_bytes(sk@, exch9_key(ida@, idb@, abs1(*ra), abs1(r), e9(abs2(key.de), abs1(*ra)), gt_pow(e9(G2P(), abs1(msk.ppube)), val4(rb@)),
+                gt_pow(e9(abs2(key.de), abs1(*ra)), val4(rb@)), klen as nat));
+        }
 
         fn is_zero(x: &Vec<u8>, klen: usize) -> (r: bool)
             requires klen <= x@.len()
@@ -984,10 +1079,11 @@ fn exch_step_1b(
             break;
         }
     }
-    proof { assert(csprng9(rb@) && exch9_b(val4(rb@), abs1(msk.ppube), abs2(key.de), ida@, idb@, abs1(*ra), klen as nat, abs1(r), sk@)); }
+    proof { k9_exch_b_final(rb@, abs1(msk.ppube), abs2(key.de), ida@, idb@, abs1(*ra), klen as nat, abs1(r), sk@); }
     Ok((r, sk))
 }
 //@props C17 C20
+#[verifier::spinoff_prover]
 fn exch_step_2a(
     msk: &Sm9EncMasterKey,
     ida: &[u8],
@@ -1004,7 +1100,8 @@ fn exch_step_2a(
         res is Ok ==> res->Ok_0@ == exch9_key(ida@, idb@, abs1(*ra), abs1(*rb),
             gt_pow(e9(G2P(), abs1(msk.ppube)), val4(ra_@)), e9(abs2(key.de), abs1(*rb)), gt_pow(e9(abs2(key.de), abs1(*rb)), val4(ra_@)), klen as nat),
 {
-    proof { lemma_key9_consts(); lemma_params9(); lemma_p2_generator(); }
+    hide(f12_bytes); hide(val4);
+    proof { lemma_key9_consts(); lemma_p2_generator(); }
     let mut sk = vec![];
     loop
         invariant_except_break valid1(msk.ppube), valid2(key.de), wf1(*ra), val4(ra.z@) != 0, wf1(*rb), val4(rb.z@) != 0, 1 <= klen < 0x1_0000_0000, val4(ra_@) < N9() - 1,
@@ -1018,38 +1115,57 @@ fn exch_step_2a(
         }
 
         let mut g1 = sm9_u256_pairing(&SM9_TWIST_POINT_MONT_P2, &msk.ppube);
+        let ghost f1 = g1;
+        proof { k9_is_gt(abs12(f1), e9(G2P(), abs1(msk.ppube))); }
         g1 = g1.pow(&ra_);
+        proof { k9_gt_pow(f1, g1, val4(ra_@)); k9_is_gt(abs12(g1), gt_pow(e9(G2P(), abs1(msk.ppube)), val4(ra_@))); }
 
         let g2 = sm9_u256_pairing(&key.de, &rb);
+        proof { k9_is_gt(abs12(g2), e9(abs2(key.de), abs1(*rb))); }
         let g3 = g2.pow(&ra_);
+        proof { k9_gt_pow(g2, g3, val4(ra_@)); k9_is_gt(abs12(g3), gt_pow(e9(abs2(key.de), abs1(*rb)), val4(ra_@))); }
 
         let ghost a1 = abs12(g1); let ghost a2 = abs12(g2); let ghost a3 = abs12(g3);
+        let ghost w1 = g1; let ghost w2 = g2; let ghost w3 = g3;
         let ta = ra.to_bytes_be();
         let tb = rb.to_bytes_be();
 
         let g1 = g1.to_bytes_be();
         let g2 = g2.to_bytes_be();
         let g3 = g3.to_bytes_be();
-
+        proof { k9_be32(); }
         let mut pre_append = vec![];
+        let ghost e0: Seq<u8> = pre_append@;
         pre_append.extend_from_slice(ida);
         pre_append.extend_from_slice(idb);
+        let ghost e2: Seq<u8> = pre_append@;
+        proof { assert(e2 =~= e0 + ida@ + idb@); }
         pre_append.extend_from_slice(&ta[1..]);
+        let ghost e3: Seq<u8> = pre_append@;
+        proof { k9_is_int(e3.len() as int, e2.len() as int + 64); assert(e3 =~= e2 + ta@.subrange(1, ta@.len() as int)); }
         pre_append.extend_from_slice(&tb[1..]);
+        let ghost e4: Seq<u8> = pre_append@;
+        proof { k9_is_int(e4.len() as int, e3.len() as int + 64); assert(e4 =~= e3 + tb@.subrange(1, tb@.len() as int)); }
         pre_append.extend_from_slice(&g1);
+        let ghost e5: Seq<u8> = pre_append@;
+        proof { assert(e5 =~= e4 + g1@); }
         pre_append.extend_from_slice(&g2);
+        let ghost e6: Seq<u8> = pre_append@;
+        proof { assert(e6 =~= e5 + g2@); }
         pre_append.extend_from_slice(&g3);
+        proof { assert(pre_append@ =~= e6 + g3@); }
 
         proof {
-            k9_link12(); k9_gt_wrap(a1); k9_gt_wrap(a2); k9_gt_wrap(a3); k9_gt_bytes_len(a1); k9_gt_bytes_len(a2); k9_gt_bytes_len(a3);
+            k9_gt_ser(w1, g1@); k9_gt_ser(w2, g2@); k9_gt_ser(w3, g3@);
             k9_xy_len(abs1(*ra)); k9_xy_len(abs1(*rb));
-            assert(g1@ == gt_bytes(a1) && g2@ == gt_bytes(a2) && g3@ == gt_bytes(a3));
-            assert(ta@.subrange(1, ta@.len() as int) =~= xy1_bytes(abs1(*ra)));
-            assert(tb@.subrange(1, tb@.len() as int) =~= xy1_bytes(abs1(*rb)));
-            assert(pre_append@ =~= ida@ + idb@ + xy1_bytes(abs1(*ra)) + xy1_bytes(abs1(*rb)) + gt_bytes(a1) + gt_bytes(a2) + gt_bytes(a3));
-            k9_kdf_len(pre_append@, klen as nat);
+            k9_exch_cat(pre_append@, e0, ida@, idb@, ta@, tb@, g1@, g2@, g3@, xy1_bytes(abs1(*ra)), xy1_bytes(abs1(*rb)), gt_bytes(a1), gt_bytes(a2), gt_bytes(a3));
         }
+        proof { k9_kdf_len(pre_append@, klen as nat); }
         sk = kdf(&pre_append, klen);
+        proof {
+            k9_is_bytes(sk@, exch9_key(ida@, idb@, abs1(*ra), abs1(*rb), gt_pow(e9(G2P(), abs1(msk.ppube)), val4(ra_@)), e9(abs2(key.de), abs1(*rb)),
+                gt_pow(e9(abs2(key.de), abs1(*rb)), val4(ra_@)), klen as nat));
+        }
         fn is_zero(x: &Vec<u8>, klen: usize) -> (r: bool)
             requires klen <= x@.len()
         {
@@ -1071,4 +1187,3 @@ fn exch_step_2a(
     }
     Ok(sk)
 }
-
